@@ -2,7 +2,7 @@
 # usage: trymutant.sh <patch.diff> [--suite] <ID>...   -- applies a candidate change to a scratch worktree of /repo HEAD,
 # optionally runs the pinned suite there, runs the quick checks of the given properties against it, removes the worktree.
 . /verif/env.sh
-PATCH="$1"; shift
+PATCH="$(realpath "$1")"; shift
 SUITE=0; if [ "$1" = "--suite" ]; then SUITE=1; shift; fi
 WT=$(mktemp -d /tmp/mut-XXXXXX); rmdir "$WT"
 git -C /repo worktree add -q --detach "$WT" HEAD || exit 2
